@@ -201,6 +201,7 @@ def run(tier, seed):
         chk.violation("byte values of generated challenges / user ids are not balanced (real OS source)", "real-source-balance", {"chi2": chi2, "missing": [b for b in range(256) if b not in hist]})
     if R:
         R.close()
+    fw.env_invariance(chk, "options")          # the same seeded cases under -O / -OO, warnings-as-errors, other TZ / locale, a private CA bundle
     return fw.finish(chk, ob, br, TRUSTED,
                      ["distinct 64-byte draws of the OS source are distinct (premise of the never-repeat corollary)", "admissible argument values: non-empty strings, enum members, byte strings"],
                      RULE, "coqc -Q . PW Properties/C15.v; thorough: coqchk -o")
